@@ -122,13 +122,13 @@ def finding_key(entry, sc):
 def models(tier, seed):
     q = tier == "quick"
     ms = [
-        dict(module="MC_Wb2Native", cfg="MC_Wb2Native_quick.cfg" if q else "MC_Wb2Native_thorough.cfg", workers=4 if q else 8,
+        dict(module="MC_Wb2Native", cfg="MC_Wb2Native_quick.cfg" if q else "MC_Wb2Native_thorough.cfg", workers=8,
              timeout=1800 if q else 3400, label="D_Wb2Native narrow path vs R_WbMem (exhaustive)"),
         dict(module="MC_Wb2Native", cfg="MC_WbEq_fixed.cfg", workers=2, timeout=1500,
              label="D_WbEq equal path with the proposed abort repair vs R_WbMem (exhaustive)"),
         dict(module="MC_Wb2Native", cfg="MC_WbEq_asis.cfg", workers=2, timeout=1500, expect_violation=True,
              label="D_WbEq equal path, code as read: TLC exhibits the aborted-write defect (expected violation)"),
-        dict(module="MC_Wb2Native", cfg="MC_Wb2Native_neg_stale.cfg", workers=2, timeout=1500, expect_violation=True,
+        dict(module="MC_Wb2Native", cfg="MC_Wb2Native_neg_stale.cfg", workers=4, timeout=1500, expect_violation=True,
              label="negative control: read cache not invalidated by a write"),
         dict(module="MC_Wb2Native", cfg="MC_Wb2Native_neg_ackwm.cfg", workers=2, timeout=1500, expect_violation=True,
              label="negative control: unmergeable write acknowledged (lost)"),
